@@ -78,7 +78,89 @@ static Verdict run_tick(const Case &c) {
     return v;
 }
 
+// cfg[5] = 3: whole enumeration rounds through the transcribed Darwin frame flow: Discovers from up to four mappers (acknowledging this
+// station or not), Hellos heard, Resets, ticks and clock advances in any order; cfg[7] = clock at the start (ms).
+// ops: 1 Discover (a: mapper, acknowledging, generation, xid) 2 Hellos heard (a: how many) 3 tick 4 advance (a: ms) 5 Reset (a: mapper)
+// Every block end that the tick evaluates is judged against what was HEARD since the previous block end (or the start of the round):
+// Ni = formula(r) when r > 0 and the enumeration has begun (own Hello sent, a further Discover during the round, or GAMMA Hellos heard),
+// unchanged otherwise; the next Hello no sooner than the load formula allows; a due block is in fact evaluated.
+static void count_hello(void *u) { ++*(int *)u; }
+static Verdict run_flow(const Case &c) {
+    Verdict v;
+    World w;
+    IfCfg ic;
+    int ifi = w.add_if(ic);
+    int sent = 0;
+    br_darwin d{};
+    memcpy(d.mac, ic.mac.b, 6);
+    d.ctx = w.ctx(ifi); d.send_hello = count_hello; d.user = &sent; d.call_parse_frame = 0; d.skip_trailing_tick = 1;
+    uint64_t now = (uint64_t)std::max<int64_t>(1000, c.c(7, 10000));
+    vp_set_now_ms(now);
+    if (br_darwin_init(&d) != 0) { v.fail("constructors failed"); return v; }
+    void *band = br_aut_extra(d.enumeration);
+    uint64_t mr = 0; bool mbegun = false;
+    int blocks = 0, formula_blocks = 0, rounds = 0, quiet_ends = 0;
+    auto tick = [&](size_t i) {
+        br_band b0; br_band_get(band, &b0);
+        int sent0 = sent;
+        br_darwin_idle_tick(&d);
+        br_band b1; br_band_get(band, &b1);
+        int es1 = br_aut_state(d.enumeration);
+        if (sent != sent0) mbegun = true;                                  // a Hello of our own begins the enumeration
+        bool due = es1 == 1 && b0.block_ts > 0 && now >= b0.block_ts;
+        if (due) {
+            uint64_t wni = want_ni(mr, mbegun, b0.Ni);
+            blocks++;
+            if (mr > 0 && mbegun) formula_blocks++;
+            if (b1.Ni != wni) v.fail(fmt("step %zu: block closed at t=%llu after %llu Hello(s) heard in it, enumeration %s, prior Ni=%u: Ni became %u, expected %llu", i, (unsigned long long)now, (unsigned long long)mr, mbegun ? "begun" : "not begun", b0.Ni, b1.Ni, (unsigned long long)wni));
+            else if (b1.block_ts < now + 1) v.fail(fmt("step %zu: the block due at %llu was not closed by the tick at %llu", i, (unsigned long long)b0.block_ts, (unsigned long long)now));
+            else if (b1.hello_ts < now + min_interval(wni)) v.fail(fmt("step %zu: block closed with Ni=%llu, next Hello due %lld ms after the tick; the load formula demands >= %llu ms", i, (unsigned long long)wni, (long long)(b1.hello_ts - now), (unsigned long long)min_interval(wni)));
+            mr = 0;
+        } else if (b1.Ni != b0.Ni && es1 == 1) v.fail(fmt("step %zu: tick at t=%llu changed Ni %u -> %u although no block was due (deadline %llu)", i, (unsigned long long)now, b0.Ni, b1.Ni, (unsigned long long)b0.block_ts));
+        if (v.ok && (b1.Ni < 45 || b1.Ni > 10000)) v.fail(fmt("step %zu: Ni=%u outside [45, 10000]", i, b1.Ni));
+        if (es1 == 0 && b1.block_ts == 0) mbegun = false;                  // table empty: the round is over
+        if (es1 == 0 && b1.block_ts != 0) quiet_ends++;                    // round over because every session is complete
+    };
+    for (size_t i = 0; i < c.ops.size() && v.ok; i++) {
+        const Op &op = c.ops[i];
+        if (op.kind == 4) { now += (uint64_t)std::max<int64_t>(0, std::min<int64_t>(op.arg(0), 100000)); vp_set_now_ms(now); continue; }
+        if (op.kind == 3) { tick(i); continue; }
+        Bytes f;
+        int reps = 1;
+        Mac mp = mac_from_u64(0x0200AA000001ULL + ((uint64_t)(op.arg(0) & 3) << 8));
+        if (op.kind == 1) {
+            std::vector<Mac> st = {mac_from_u64(0x0600BB000001ULL)};
+            if (op.arg(1)) st.push_back(ic.mac);
+            f = mk_discover(mp, mp, 0, (uint16_t)op.arg(3, 1), (uint16_t)op.arg(2, 1), st);
+        } else if (op.kind == 2) {
+            Mac h = mac_from_u64(0x0200CC000001ULL);
+            f = mk_hello(h, 0, 1, mp, mp);
+            reps = (int)std::max<int64_t>(1, std::min<int64_t>(op.arg(0), 300));
+        } else if (op.kind == 5) f = mk_simple(BCAST, mp, 0, OP_RESET, BCAST, mp, 0);
+        else continue;
+        for (int k = 0; k < reps && v.ok; k++) {
+            int es0 = br_aut_state(d.enumeration);
+            uint8_t *tf;
+            uint8_t *b = w.stage(ifi, f, CLEAN, &tf);
+            br_darwin_rx(&d, b, f.size());
+            free(tf);
+            if (op.kind == 2) { mr++; if (mr >= 10) mbegun = true; }
+            if (op.kind == 1) { if (es0 == 0) { mr = 0; mbegun = false; rounds++; } else mbegun = true; }
+            tick(i);   // the frame flow ends with a tick
+        }
+    }
+    br_darwin_destroy(&d);
+    v.nontrivial = formula_blocks > 0;
+    if (blocks) v.cls("flow:block-closed");
+    if (formula_blocks) v.cls("flow:block-closed-in-the-formula-branch");
+    if (rounds >= 2) v.cls("flow:several-rounds");
+    if (rounds >= 2 && quiet_ends) v.cls("flow:round-after-a-round-that-ended-with-all-sessions-complete");
+    if (now >= (1ULL << 32)) v.cls("flow:clock-beyond-2^32-ms");
+    return v;
+}
+
 static Verdict run(const Case &c) {
+    if (c.c(5) == 3) return run_flow(c);
     if (c.c(5) != 0) return run_tick(c);
     Verdict v;
     World w;
@@ -105,7 +187,8 @@ static Verdict run(const Case &c) {
 
 static bool one(const Args &a, Evidence &ev, uint64_t r, int begun, uint64_t prior, const char *part) {
     static const int64_t lates[] = {0, 1, 2, 61, 201, 300, 301, 1001, 4000};   // the count is what was HEARD, however late the block is closed
-    Case c; c.cfg = {(int64_t)r, begun, (int64_t)prior, 5000, 1, 0, lates[(r * 7 + (uint64_t)begun + prior) % 9]};
+    static const int64_t clocks[] = {5000, 5000, 4294967296LL - 4000, 4294967296LL - 1, 4294967296LL, 4294967296LL + 12345, (1LL << 40) + 7, (1LL << 53) + 1};   // uptime up to and far beyond 49.7 days
+    Case c; c.cfg = {(int64_t)r, begun, (int64_t)prior, clocks[(r * 3 + (uint64_t)begun) % 8], 1, 0, lates[(r * 7 + (uint64_t)begun + prior) % 9]};
     CurrentScope scope(c);
     Verdict v = run(c);
     ev.note(c.digest(), v.nontrivial && v.ok, [&] { return c.to_text(); });
@@ -123,7 +206,7 @@ int main(int argc, char **argv) {
     Evidence ev;
     ev.rule = "band_update_stats + band_choose_hello_time on a real enumeration automaton with (r, begun, prior Ni) set through the bridge; oracle in 128-bit arithmetic from the statement "
               "(Ni = min(10000, 45 r^2), interval >= ceil(4 Ni 20/30) and >= 6 ms, range [45,10000], monotone in r). Quick: r in 0..70000 contiguous, 2^k-1/2^k/2^k+1, j*65536 +-1, odd multiples of 2^16, "
-              "10^5 random, prior Ni in {45,46,9999,10000,random}; also through automata_tick's block-timeout path for r <= 200. Thorough (-O2 build): EVERY r in [0, 2^32) x begun x prior in {45, 10000}. "
+              "10^5 random, prior Ni in {45,46,9999,10000,random}; clock values up to and far beyond 2^32 ms; also through automata_tick's block-timeout path for r <= 200, and whole enumeration rounds (Discovers from up to four mappers, Hellos heard, Resets, ticks, clock advances) through the transcribed Darwin frame flow where every block end is judged against the Hellos heard since the previous one. Thorough (-O2 build): EVERY r in [0, 2^32) x begun x prior in {45, 10000}. "
               "non-trivial = r > 0 and begun (the formula branch); distinct = (r, begun, prior)";
     bool ok = true;
 #ifdef FLAVOUR_O2
@@ -190,6 +273,24 @@ int main(int argc, char **argv) {
         ev.count("c13-tick-path:cases");
         for (auto &k : v.classes) ev.count("c13-tick-path:" + k);
         if (!v.ok) { write_file(a.failing, "# c13-tick-path: " + v.why + "\n" + c.to_text()); fprintf(stderr, "FAIL part=c13-tick-path %s\n", v.why.c_str()); ok = false; }
+    }
+    if (ok) {
+        auto gen = rc::gen::exec([] {
+            Case c; c.cfg = {0, 0, 0, 0, 0, 3, 0, *gx::pick({10000, 10000, 123456, 4294967296LL - 3000, 4294967296LL + 77, 1LL << 40})};
+            int n = *gx::range<int>(3, 70);
+            c.ops = *rc::gen::resize(n, rc::gen::container<std::vector<Op>>(rc::gen::exec([] {
+                Op o;
+                int k = *gx::range<int>(0, 99);
+                if (k < 18) { o.kind = 1; o.a = {*gx::range<int64_t>(0, 3), *gx::pick({0, 0, 1}), *gx::pick({1, 1, 2, 0}), *gx::range<int64_t>(1, 3)}; }
+                else if (k < 45) { o.kind = 2; o.a = {*gx::pick({1, 1, 1, 2, 3, 9, 10, 11, 15, 40})}; }
+                else if (k < 70) o.kind = 3;
+                else if (k < 97) { o.kind = 4; o.a = {*gx::pick({0, 1, 50, 100, 150, 299, 300, 301, 400, 700, 1000, 1500, 5000, 31000, 61000})}; }
+                else { o.kind = 5; o.a = {*gx::range<int64_t>(0, 3)}; }
+                return o;
+            })));
+            return c;
+        });
+        ok = run_cases(a, ev, "c13-rounds", a.n(30000, 400000), 100, gen, run);
     }
 #endif
     ev.write(a.out);
